@@ -748,6 +748,24 @@ impl<'c, 'a> VisitMut for Structural<'c, 'a> {
                 }
             }
             Expr::ForLoop(f) => self.rewrite_for(f),
+            Expr::Match(m) => {
+                // R26: `P if G => A, _ => D` (guarded arm followed only by a catch-all) -> `P => if G { A } else { D }, _ => D`
+                let n = m.arms.len();
+                if n >= 2 && m.arms[n - 2].guard.is_some() && m.arms[n - 1].guard.is_none() && matches!(m.arms[n - 1].pat, syn::Pat::Wild(_)) {
+                    let mut m2 = m.clone();
+                    let d = m2.arms[n - 1].body.clone();
+                    let (_, g) = m2.arms[n - 2].guard.take().unwrap();
+                    let a = m2.arms[n - 2].body.clone();
+                    m2.arms[n - 2].body = Box::new(syn::parse_quote!(if #g { #a } else { #d }));
+                    if m2.arms[n - 2].comma.is_none() {
+                        m2.arms[n - 2].comma = Some(Default::default());
+                    }
+                    self.cx.logr("R26", m.match_token.span, "guarded arm before catch-all -> if/else inside the arm".into());
+                    Some(Expr::Match(m2))
+                } else {
+                    None
+                }
+            }
             _ => None,
         };
         if let Some(r) = replacement {
@@ -865,11 +883,45 @@ impl<'p> VisitMut for GhostInit<'p> {
     }
 }
 
+struct Renamer<'m> {
+    map: &'m [(String, String)],
+}
+impl<'m> VisitMut for Renamer<'m> {
+    fn visit_pat_ident_mut(&mut self, p: &mut syn::PatIdent) {
+        for (a, b) in self.map {
+            if p.ident == a {
+                p.ident = syn::Ident::new(b, p.ident.span());
+            }
+        }
+        visit_mut::visit_pat_ident_mut(self, p);
+    }
+    fn visit_expr_path_mut(&mut self, p: &mut syn::ExprPath) {
+        if p.qself.is_none() && p.path.segments.len() == 1 {
+            for (a, b) in self.map {
+                if p.path.segments[0].ident == a {
+                    let sp = p.path.segments[0].ident.span();
+                    p.path.segments[0].ident = syn::Ident::new(b, sp);
+                }
+            }
+        }
+    }
+}
+
 // ------------------------------------------------------------------------------------------ extract fn
 
 pub fn extract_fn(file: &syn::File, name: &str, opts: &Value, rules: &[Rule], plan: &Value) -> Result<Value, String> {
     let mut f = find_fn(&file.items, name)?;
     let tmap = type_map_of(plan)?;
+    // per-function substitutions (logged by the driver as rule S) are tried before the global rules
+    let mut all_rules: Vec<Rule> = vec![];
+    if let Some(ss) = opts["substs"].as_array() {
+        for (k, s) in ss.iter().enumerate() {
+            let line = format!("S{}: {} => {}", k, s[0].as_str().unwrap_or(""), s[1].as_str().unwrap_or(""));
+            all_rules.extend(matcher::parse_rules(&line)?);
+        }
+    }
+    all_rules.extend(rules.iter().cloned());
+    let rules: &[Rule] = &all_rules;
     let mut cx = Ctx { rules, opts, plan, log: vec![], errors: vec![], loops: 0, closures: 0, dasserts: 0 };
     let src_line = f.sig.ident.span().start().line;
 
@@ -884,6 +936,27 @@ pub fn extract_fn(file: &syn::File, name: &str, opts: &Value, rules: &[Rule], pl
         StripLifetimes.visit_type_mut(t);
     }
 
+    // R25: parameter renames (a parameter with the name of its own function clashes in Verus' expansion)
+    let mut renames: Vec<(String, String)> = vec![];
+    if let Some(m) = opts["renames"].as_object() {
+        for (k, v) in m {
+            renames.push((k.clone(), v.as_str().unwrap_or("").to_string()));
+        }
+    }
+    if !renames.is_empty() {
+        let mut rn = Renamer { map: &renames };
+        for inp in f.sig.inputs.iter_mut() {
+            if let syn::FnArg::Typed(pt) = inp {
+                rn.visit_pat_mut(&mut pt.pat);
+            }
+        }
+        if let Some(b) = &mut f.block {
+            rn.visit_block_mut(b);
+        }
+        for (a, b) in &renames {
+            cx.log.push(json!({"rule": "R25", "line": src_line, "what": format!("parameter {} renamed to {}", a, b)}));
+        }
+    }
     // params
     let mut params = vec![];
     let mut mut_params: Vec<syn::Ident> = vec![];
